@@ -1,5 +1,5 @@
 (** Model of the header marshaller, rustbus/src/wire/marshal.rs (as of the fix: commits, HEAD
-    1e3a1ed): marshal, marshal_header, marshal_header_field and the nine field writers; the
+    955c136): marshal, marshal_header, marshal_header_field and the nine field writers; the
     message as the marshaller sees it (message_builder.rs: MarshalledMessage, DynamicHeader,
     MessageType) and the builders of message_builder.rs / standard_messages.rs as functions that
     fill in that record.  Strings are their UTF-8 bytes; the name validators run on the chars. *)
@@ -25,7 +25,8 @@ Record msg := {
   m_error_name : option (list N);
   m_body : list N;                     (* get_buf() *)
   m_sig : list N;                      (* get_sig().as_bytes() *)
-  m_nfds : N                           (* body.get_fds().len() *)
+  m_nfds : N;                          (* body.get_fds().len(): the UnixFd handles of the body *)
+  m_live : N                           (* body.get_raw_fds().len(): those handles whose descriptor has not been taken *)
 }.
 
 (* wire.rs *)
@@ -99,8 +100,22 @@ Definition marshal_fields (m : msg) (buf : list N) : outcome (list N) :=
   do buf <- if_some (m_object m) (marshal_header_path be) buf;
   do buf <- if_some (m_error_name m) (marshal_header_errorname be) buf;
   do buf <- if_true (negb (is_nil (m_body m))) (marshal_header_signature (m_sig m)) buf;
-  do buf <- if_true (negb (m_nfds m =? 0)) (marshal_header_unix_fds be (m_nfds m mod 2 ^ 32)) buf;
+  do buf <- if_true (negb (m_nfds m =? 0))
+              (fun buf => if negb (m_live m =? m_nfds m) then Err                (* EmptyUnixFd: a descriptor was taken (fix 955c136) *)
+                          else marshal_header_unix_fds be (m_nfds m mod 2 ^ 32) buf) buf;
   Ok buf.
+
+Definition is_some {A} (o : option A) : bool := match o with Some _ => true | None => false end.
+
+(* the `let has_required_fields = match msg.typ {..}` of marshal_header (fix 7d0a594) *)
+Definition has_required_fields (m : msg) : bool :=
+  match m_typ m with
+  | MCall => is_some (m_object m) && is_some (m_member m)
+  | MSignal => is_some (m_object m) && is_some (m_interface m) && is_some (m_member m)
+  | MError => is_some (m_error_name m) && is_some (m_reply_serial m)
+  | MReply => is_some (m_reply_serial m)
+  | MInvalid => false
+  end.
 
 (* fn marshal_header(msg, chosen_serial, buf), called with an empty buf (SendConn::send_message clears it) *)
 Definition marshal_header (m : msg) (serial : N) : outcome (list N) :=
@@ -109,6 +124,7 @@ Definition marshal_header (m : msg) (serial : N) : outcome (list N) :=
   match type_code (m_typ m) with
   | None => Err                                            (* InvalidMessageType *)
   | Some c =>
+      if negb (has_required_fields m) then Err else            (* Validation(InvalidHeaderFields) *)
       let buf := buf ++ [c] in
       let buf := buf ++ [m_flags m] in
       let buf := buf ++ [1] in                             (* version *)
@@ -145,7 +161,8 @@ Record rust_typed (m : msg) : Prop := {
   rt_error_name : opt_all is_string (m_error_name m);
   rt_body : bytes_ok (m_body m);
   rt_sig : is_string (m_sig m);
-  rt_nfds : m_nfds m < 2 ^ 32          (* fewer than 2^32 descriptors are attached (`len() as u32`) *)
+  rt_nfds : m_nfds m < 2 ^ 32;         (* fewer than 2^32 descriptors are attached (`len() as u32`) *)
+  rt_live : m_live m <= m_nfds m
 }.
 
 (** ** the builders (message_builder.rs) and the standard messages (standard_messages.rs) as
@@ -155,37 +172,37 @@ Record rust_typed (m : msg) : Prop := {
 Definition new_msg (be : bool) : msg :=
   {| m_typ := MInvalid; m_flags := 0; m_be := be; m_reply_serial := None; m_interface := None;
      m_destination := None; m_sender := None; m_member := None; m_object := None; m_error_name := None;
-     m_body := []; m_sig := []; m_nfds := 0 |}.
+     m_body := []; m_sig := []; m_nfds := 0; m_live := 0 |}.
 
 Definition with_body (m : msg) (body sg : list N) (nfds : N) : msg :=
   {| m_typ := m_typ m; m_flags := m_flags m; m_be := m_be m; m_reply_serial := m_reply_serial m;
      m_interface := m_interface m; m_destination := m_destination m; m_sender := m_sender m;
      m_member := m_member m; m_object := m_object m; m_error_name := m_error_name m;
-     m_body := body; m_sig := sg; m_nfds := nfds |}.
+     m_body := body; m_sig := sg; m_nfds := nfds; m_live := m_live m + (nfds - m_nfds m) |}.     (* what is pushed brings live descriptors *)
 
 (* MessageBuilder::with_byteorder(b).call(member) [.on(path)] [.with_interface(i)] [.at(dest)] .build() *)
 Definition build_call (be : bool) (member : list N) (path iface dest : option (list N)) : msg :=
   {| m_typ := MCall; m_flags := 0; m_be := be; m_reply_serial := None; m_interface := iface;
      m_destination := dest; m_sender := None; m_member := Some member; m_object := path; m_error_name := None;
-     m_body := []; m_sig := []; m_nfds := 0 |}.
+     m_body := []; m_sig := []; m_nfds := 0; m_live := 0 |}.
 
 (* MessageBuilder::with_byteorder(b).signal(interface, member, object) [.to(dest)] .build() *)
 Definition build_signal (be : bool) (iface member path : list N) (dest : option (list N)) : msg :=
   {| m_typ := MSignal; m_flags := 0; m_be := be; m_reply_serial := None; m_interface := Some iface;
      m_destination := dest; m_sender := None; m_member := Some member; m_object := Some path; m_error_name := None;
-     m_body := []; m_sig := []; m_nfds := 0 |}.
+     m_body := []; m_sig := []; m_nfds := 0; m_live := 0 |}.
 
 (* DynamicHeader::make_response: a Reply to `sender` with the call's serial *)
 Definition make_response (be : bool) (call_sender : option (list N)) (call_serial : option N) : msg :=
   {| m_typ := MReply; m_flags := 0; m_be := be; m_reply_serial := call_serial; m_interface := None;
      m_destination := call_sender; m_sender := None; m_member := None; m_object := None; m_error_name := None;
-     m_body := []; m_sig := []; m_nfds := 0 |}.
+     m_body := []; m_sig := []; m_nfds := 0; m_live := 0 |}.
 
 (* DynamicHeader::make_error_response(error_name, _) *)
 Definition make_error_response (be : bool) (call_sender : option (list N)) (call_serial : option N) (name : list N) : msg :=
   {| m_typ := MError; m_flags := 0; m_be := be; m_reply_serial := call_serial; m_interface := None;
      m_destination := call_sender; m_sender := None; m_member := None; m_object := None; m_error_name := Some name;
-     m_body := []; m_sig := []; m_nfds := 0 |}.
+     m_body := []; m_sig := []; m_nfds := 0; m_live := 0 |}.
 
 (* the strings of standard_messages.rs *)
 Definition s_dbus_path : list N := [47;111;114;103;47;102;114;101;101;100;101;115;107;116;111;112;47;68;66;117;115].   (* /org/freedesktop/DBus *)
